@@ -3,7 +3,7 @@ from __future__ import annotations
 
 from hypothesis import strategies as st
 
-from vf.core import CaseResult, Ctx, Violation, hyp_run
+from vf.core import CaseResult, Ctx, Violation, exc_sig, hyp_run
 from vf.gen.wfspec import wfspecs
 from vf.sim.c08_util import (
     FlowMonitor, basic_steps, children_of, db_task_tables, flow_commands,
@@ -12,7 +12,7 @@ from vf.sim.drive import SCase, outcome_maps, run_async
 
 PROP_ID = 'C30'
 LEVEL = 'exploration'
-BUDGET = {'quick': 420, 'thorough': 11000}
+BUDGET = {'quick': 360, 'thorough': 9000}
 MANIFEST = {
     'engine': 'S',
     'technique': 'stateful PBT on the stepped scheduler: pool snapshot and '
@@ -22,25 +22,31 @@ MANIFEST = {
 }
 RULE = (
     'Generated workflow (AND/OR joins, inter-cycle offsets, optional/custom '
-    'outputs, runahead P0-P3; no absolute/future triggers) + outcomes and a '
-    'history of <= 45 steps over loop / return / advance / deliver / settle, '
-    'trigger and set (outputs, --pre=all) with --flow=new|N|none (so several '
-    'flows exist), set --pre=<one atom> of a pooled task, restarts, and '
-    'removals: of any pooled / finished / not-yet-spawned instance, or of a '
-    'parent of a pooled task, with no --flow or --flow=N[,M]; a removal is '
-    'either raw (command only) or quiet (one main-loop iteration before and '
-    'after with nothing delivered in between, the database read through a '
-    'fresh connection before and after); "respawn" steps re-complete an '
-    'output of a parent of the last removed instance.  Oracle per removal, '
+    'outputs, runahead P0-P2 in 3/4 of the cases; no absolute/future '
+    'triggers) + outcomes and a history = settle(0-5 fair rounds) followed by '
+    '2-7 blocks [0-3 filler steps (loop / return / advance / deliver / '
+    'settle / trigger or set with --flow=new|N|none|default, --wait / set '
+    '--pre=<one atom> of a pooled task), optionally a restart or another '
+    'such command, ONE REMOVAL, optionally a "respawn" (cylc set of an '
+    'output of a parent of the removed instance) or a settle], then a fair '
+    'drain.  A removal targets any pooled / finished / not-yet-spawned '
+    'instance, or (2/3) a graph parent of a pooled task, with no --flow or '
+    '--flow=N[,M]; it is raw (command only, 1/3) or quiet (2/3: one '
+    'main-loop iteration before and after with nothing delivered in '
+    'between; task_states / task_outputs read through a fresh connection '
+    'before and after).  One main-loop iteration follows every restart '
+    'before the next command.  Oracle per removal, '
     'from the pool snapshots taken immediately before/after the command: the '
     'target loses exactly the requested flows it had and leaves the pool iff '
     'none remain; in each pooled graph child (harness AST) that shares a '
     'removed flow every atom on the target that was "satisfied naturally" is '
-    'unsatisfied afterwards, every "force satisfied" atom is untouched, atoms '
+    'unsatisfied afterwards (if the target verifiably had a removed flow), '
+    'every "force satisfied" atom is untouched, atoms '
     'on other tasks are untouched; such a child is still pooled if any atom '
     'stays satisfied and is gone if it was waiting, had all its flows '
     'removed, lost an atom and has none satisfied; every other pooled task '
-    'keeps its flows, outputs and prerequisite atoms and stays pooled.  '
+    'keeps its flows (plus flows merged into it by the runahead release the '
+    'command ends with), outputs and prerequisite atoms and stays pooled.  '
     'Quiet removals also: afterwards no task_states / task_outputs row of '
     'the target carries a removed flow, every flow of its rows that was not '
     'removed is still recorded, rows of other instances (except children '
@@ -48,8 +54,8 @@ RULE = (
     'again later: the first spawn_task attempt for a target that left the '
     'pool / was not pooled, made in removed flows only, must not be refused '
     '(other than by cycle bounds).  Non-trivial = a removal changed the pool '
-    'or the database and the target had a pooled child or a database '
-    'history; distinct by the case.')
+    'or the target\'s database rows and the target had a pooled child or a '
+    'database history; distinct by the case.')
 ASSUMPTIONS = [
     'Children\'s atoms are required to be unset only if the target verifiably '
     'had one of the removed flows: it lost flows in the pool, or it was not '
@@ -602,12 +608,25 @@ async def _check(case, ctx: Ctx) -> CaseResult:
             sc.sim, sc.drv.to_int, sc.drv.to_str, sc.model)
         FlowMonitor(sc)
         run = Runner(sc)
+        cmd_crash = None
         for step in case['schedule']:
             if not sim.running:
                 break
-            await run.step(step)
-        await sc.drain()
+            try:
+                await run.step(step)
+            except Exception as exc:
+                sig = exc_sig(exc)
+                if sig.endswith('@?') or isinstance(exc, AssertionError):
+                    raise               # not raised inside cylc: harness
+                cmd_crash = Violation(
+                    'C30:command-crashed:' + sig,
+                    f'step {step} raised {exc!r}')
+                break
+        if cmd_crash is None:
+            await sc.drain()
         viol = sc.crash_violations('C30')
+        if cmd_crash is not None:
+            viol.append(cmd_crash)
         classes = set()
         for rec in run.removals:
             viol += check_removal(rec, spec, model, to_int, to_str, classes)
